@@ -62,6 +62,19 @@ func propScaleTokenizers(c *Ctx, which string) {
 			}
 		}
 	}
+	if which == "C12" {
+		// more than 4096 / 65536 tokens, columns and lines in one input
+		for _, b := range []struct {
+			kind, pat string
+			n         int
+		}{{"g", "7 ", 4200}, {"g", "ab ", 23400}, {"g", "a \n", 66000}, {"e", "1.5 + ", 12000}, {"c:44:34", "a,b,", 17000}, {"m", "x", 72000}} {
+			in := []rune(strings.Repeat(b.pat, b.n))
+			if b.kind == "m" {
+				in = append(in, []rune("{{name}} {{#a}}y{{/a}}")...)
+			}
+			runC12Case(c, b.kind, []int{0, 16 | 32, 127}, in)
+		}
+	}
 	c.Notes = append(c.Notes, fmt.Sprintf("scale: inputs of %v characters (single-class runs, mixed lexemes, unclosed literals) for every tokenizer", sizes))
 }
 
@@ -98,6 +111,17 @@ func scaleTrees(sizes []int) []*ex {
 			&ex{k: 'i', kids: []*ex{arr, cst(fmt.Sprint(n - 1))}},
 			&ex{k: 'i', kids: []*ex{arr, cst("0")}},
 			&ex{k: 'i', kids: []*ex{arr, cst(fmt.Sprint(n))}})
+		// flat chains of n+1 completed index operations, calls and parenthesised groups (nothing nested deeper than one level)
+		ix := func() *ex { return &ex{k: 'i', kids: []*ex{{k: 'v', text: "a"}, cst("0")}} }
+		cl := func() *ex { return &ex{k: 'f', text: "Abs", kids: []*ex{cst("1")}} }
+		pr := func() *ex { return &ex{k: 'p', kids: []*ex{cst("2")}} }
+		fi, fc, fp := ix(), cl(), pr()
+		for i := 0; i < n; i++ {
+			fi = &ex{k: 'b', op: parsers.Plus, kids: []*ex{fi, ix()}}
+			fc = &ex{k: 'b', op: parsers.Plus, kids: []*ex{fc, cl()}}
+			fp = &ex{k: 'b', op: parsers.Plus, kids: []*ex{fp, pr()}}
+		}
+		out = append(out, fi, fc, fp)
 		// a long identifier and a long string literal
 		out = append(out, &ex{k: 'b', op: parsers.Plus, kids: []*ex{{k: 'v', text: "v" + strings.Repeat("x", n)}, cst("'" + strings.Repeat("q''", n/3) + "'")}})
 	}
@@ -121,7 +145,20 @@ func propScaleExpressions(c *Ctx, which string) {
 		}
 		switch which {
 		case "C02":
-			runParseCase(c, expr, "scale")
+			o := runParseCase(c, expr, "scale")
+			if o.status == "" && o.code != "" {
+				c.fail(Failure{Kind: "oracle", Op: "expr " + strRunes(expr), Impl: o.implLine(), Note: fmt.Sprintf("a sentence of the grammar (%d characters: %s) was rejected with %s", len(expr), clip(expr), o.code)})
+			} else if o.status == "" && strings.Join(o.result, " ") != strings.Join(post, " ") {
+				c.fail(Failure{Kind: "oracle", Op: "expr " + strRunes(expr), Impl: clip(o.implLine()), Note: fmt.Sprintf("%s compiled to %s, the post-order of its syntax tree is %s", clip(expr), clip(strings.Join(o.result, " ")), clip(strings.Join(post, " ")))})
+			}
+			// the same text with one token too many or too few is no sentence
+			if i := strings.LastIndexAny(expr, ")]"); i > 0 {
+				for _, bad := range []string{expr[:i] + "," + expr[i:], expr[:i] + expr[i+1:], expr[:i] + expr[i:i+1] + expr[i:]} {
+					if ob := runParseCase(c, bad, "scale-non-sentence"); ob.status == "" && ob.code == "" {
+						c.fail(Failure{Kind: "oracle", Op: "expr " + strRunes(bad), Impl: clip(ob.implLine()), Note: fmt.Sprintf("%s is not a sentence of the grammar (a stray ',' / a missing or doubled bracket near the end) but was accepted", clip(bad))})
+					}
+				}
+			}
 		case "C18":
 			runVarsCase(c, e, expr)
 		default:
@@ -324,6 +361,49 @@ func propScaleScanner(c *Ctx) {
 		}
 		ops = append(ops, fmt.Sprintf("m%d", n/2), "r", "p", fmt.Sprintf("m%d", n), "r", "x")
 		runScanCase(c, content, ops)
+	}
+	// long multi-unreads, from the end-of-input slot, from the last character and from the middle, over tails with and
+	// without a line break
+	for _, t := range []int{15, 16, 17, 31, 32, 33, 34, 40, 64, 65, 130} {
+		for _, head := range []string{"ab\n", "ab\r\n", "", "ab\ncd\r"} {
+			content := []rune(head + strings.Repeat("x", t))
+			for _, extra := range []int{0, 1, 2} {
+				for _, k := range []int{t - 1, t, t + 1, t + 2, t + 3, t + 5, len(content) + 1} {
+					var ops []string
+					for i := 0; i < len(content)+extra; i++ {
+						ops = append(ops, "r")
+					}
+					ops = append(ops, fmt.Sprintf("m%d", k), "p", "r", "r", fmt.Sprintf("m%d", k/2+1), "r")
+					runScanCase(c, content, ops)
+				}
+			}
+		}
+	}
+	// positions around multiples of 4096 with every pair of {x, LF, CR} across the boundary, walked over backwards
+	// one step at a time (un-reading a line break is where line and column are recomputed) and forwards again
+	for _, base := range []int{4096, 8192} {
+		if base == 8192 && !c.Thorough {
+			continue
+		}
+		for _, a := range []rune{'x', '\n', '\r'} {
+			for _, b := range []rune{'x', '\n', '\r'} {
+				content := []rune(strings.Repeat("x", base-1))
+				if base == 8192 {
+					copy(content[4090:], []rune("ab\n\rcd\r\n"))
+				}
+				content = append(content, a, b)
+				content = append(content, []rune("ab\ncd\re\r\nf")...)
+				var ops []string
+				for i := 0; i < len(content)+1; i++ {
+					ops = append(ops, "r")
+				}
+				for i := 0; i < 16; i++ {
+					ops = append(ops, "u")
+				}
+				ops = append(ops, "r", "r", "r", "r", "m3", "r", "u", "u", "r")
+				runScanCase(c, content, ops)
+			}
+		}
 	}
 }
 
